@@ -22,6 +22,7 @@ import (
 	"github.com/makiuchi-d/gozxing/oned"
 	"github.com/makiuchi-d/gozxing/qrcode"
 	"github.com/makiuchi-d/gozxing/verifhook"
+	"verifharness/c10/odr"
 	"verifharness/hlib"
 )
 
@@ -30,6 +31,11 @@ type job struct {
 	Text string `json:"text"`
 	W    int    `json:"w"`
 	H    int    `json:"h"`
+	// kind "runs": a 1-D symbol given as module runs (built by TLC from the standard's tables, e.g. EAN-13 with an add-on)
+	Sym   string `json:"sym"`
+	Runs  []int  `json:"runs"`
+	Q     int    `json:"q"`
+	Scale int    `json:"scale"`
 }
 
 type in struct {
@@ -135,6 +141,9 @@ func run(j job) (uint32, uint32) {
 	var r gozxing.Reader
 	var f gozxing.BarcodeFormat
 	switch j.Kind {
+	case "runs":
+		o := odr.Decode(odr.Reader(j.Sym), odr.Render(j.Runs, j.Q, j.Scale, 12), nil)
+		return crc32.ChecksumIEEE([]byte(fmt.Sprint(j.Sym, len(j.Runs)))), crc32.ChecksumIEEE([]byte(fmt.Sprint(o.Text, o.Err, o.Ext, o.Fmt, o.Panic)))
 	case "qr":
 		w, r, f = qrcode.NewQRCodeWriter(), qrcode.NewQRCodeReader(), gozxing.BarcodeFormat_QR_CODE
 	case "dm":
@@ -188,13 +197,13 @@ func main() {
 		phase = "seq"
 		mu.Unlock()
 		verifhook.Access = hook
-		// every job alone
-		seq := make([][2]uint32, len(e.Jobs))
-		for i, j := range e.Jobs {
-			a, b := run(j)
-			seq[i] = [2]uint32{a, b}
+		// The concurrent rounds run FIRST, in a fresh process: lazily grown shared state (a cache that only races while it is
+		// cold) must meet the goroutines before any sequential call has warmed it up.  The jobs run alone afterwards.
+		type conc struct {
+			ji, g int
+			a, b  uint32
 		}
-		res := [][]int{}
+		results := []conc{}
 		var resMu sync.Mutex
 		rng := rand.New(rand.NewSource(e.Seed))
 		mainG := gid()
@@ -224,14 +233,26 @@ func main() {
 					for _, ji := range mine {
 						a, b := run(e.Jobs[ji])
 						resMu.Lock()
-						res = append(res, []int{ji, me, int(a >> 16), int(a & 0xFFFF), int(b >> 16), int(b & 0xFFFF),
-							int(seq[ji][0] >> 16), int(seq[ji][0] & 0xFFFF), int(seq[ji][1] >> 16), int(seq[ji][1] & 0xFFFF)})
+						results = append(results, conc{ji, me, a, b})
 						resMu.Unlock()
 					}
 				}(g, mine, spin)
 			}
 			close(start)
 			wg.Wait()
+		}
+		mu.Lock()
+		phase = "seq"
+		mu.Unlock()
+		seq := make([][2]uint32, len(e.Jobs))
+		for i, j := range e.Jobs {
+			a, b := run(j)
+			seq[i] = [2]uint32{a, b}
+		}
+		res := [][]int{}
+		for _, c := range results {
+			res = append(res, []int{c.ji, c.g, int(c.a >> 16), int(c.a & 0xFFFF), int(c.b >> 16), int(c.b & 0xFFFF),
+				int(seq[c.ji][0] >> 16), int(seq[c.ji][0] & 0xFFFF), int(seq[c.ji][1] >> 16), int(seq[c.ji][1] & 0xFFFF)})
 		}
 		verifhook.Access = nil
 		own := [][]interface{}{}
